@@ -137,6 +137,11 @@ func main() {
 
 func runCheck(prop, repo, verifDir, tier, only string, workers int, verbose, noEvidence bool) int {
 	t0 := time.Now()
+	for _, e := range loadKnownFindings(filepath.Join(verifDir, "KNOWN_FINDINGS.txt")).entries {
+		if e.prop == prop {
+			knownFindingBases[e.ob] = true
+		}
+	}
 	cs, err := LoadContracts(repo)
 	if err != nil {
 		fmt.Println("ERROR loading contracts:", err)
